@@ -449,16 +449,70 @@ func procCompare(cases []*c18case) (v *Viol, harness string) {
 		return nil, err.Error()
 	}
 	mustJSON(cb, &child)
+	mine := make([]digest, len(cases))
 	for i, c := range cases {
 		d, err := replayDigest(c)
 		if err != nil {
 			return nil, err.Error()
 		}
+		mine[i] = d
 		if diff := firstDiff(d, digest{Parts: child[i]}); diff != "" {
 			return viol("C18", i, "replay in another OS process (GOMAXPROCS=1, other TZ, cwd=/, histories in another order) differs", "byte-identical", diff), ""
 		}
 	}
-	return nil, ""
+	// each history alone in a process that has executed nothing else: by now this process has
+	// executed every history at least once, so whatever the module retains in process memory
+	// (and only ever accumulates) separates the two
+	type solo struct {
+		i     int
+		parts []string
+		err   string
+	}
+	res := make(chan solo, len(cases))
+	sem := make(chan struct{}, 8)
+	n := 0
+	for i := range cases {
+		if i%2 == 1 && len(cases) > 24 {
+			continue // the attester variants are covered by the ordered comparison above
+		}
+		n++
+		go func(i int) {
+			sem <- struct{}{}
+			defer func() { <-sem }()
+			o := filepath.Join(dir, fmt.Sprintf("c18proc.solo.%d.json", i))
+			cmd := exec.Command(os.Args[0], "-test.run", "^TestC18Child$", "-test.count", "1")
+			cmd.Dir = "/"
+			cmd.Env = append(os.Environ(), "VERIF_C18_CHILD="+in, "VERIF_C18_OUT="+o, fmt.Sprintf("VERIF_C18_ONLY=%d", i))
+			if out, err := cmd.CombinedOutput(); err != nil {
+				res <- solo{i: i, err: fmt.Sprintf("solo child failed: %v\n%s", err, out)}
+				return
+			}
+			var all [][]string
+			b, err := os.ReadFile(o)
+			if err != nil {
+				res <- solo{i: i, err: err.Error()}
+				return
+			}
+			mustJSON(b, &all)
+			_ = os.Remove(o)
+			res <- solo{i: i, parts: all[i]}
+		}(i)
+	}
+	var first *Viol
+	for k := 0; k < n; k++ {
+		r := <-res
+		if r.err != "" {
+			harness = r.err
+			continue
+		}
+		if diff := firstDiff(mine[r.i], digest{Parts: r.parts}); diff != "" && (first == nil || r.i < first.Step) {
+			first = viol("C18", r.i, "replay alone in a fresh OS process differs from the replay in a process that executed other histories before", "byte-identical", diff)
+		}
+	}
+	if first != nil {
+		return first, ""
+	}
+	return nil, harness
 }
 
 func init() {
@@ -484,7 +538,14 @@ func RunC18Child(t *testing.T) {
 	// replay in reverse order: whatever this process retains from "earlier" histories differs
 	// from what the parent retained, so memory kept outside the store shows as a difference
 	out := make([][]string, len(cases))
+	only := -1
+	if s := os.Getenv("VERIF_C18_ONLY"); s != "" {
+		fmt.Sscan(s, &only)
+	}
 	for i := len(cases) - 1; i >= 0; i-- {
+		if only >= 0 && i != only {
+			continue
+		}
 		d, err := replayDigest(cases[i])
 		if err != nil {
 			t.Fatal(err)
